@@ -631,8 +631,16 @@ impl CpcSketch {
             )));
         }
 
-        let uncompressed = compressed.uncompress(lg_k, num_coupons);
-        Ok(CpcSketch {
+        // C < (27/8 + 56) K: beyond it the window offset would exceed 56
+        if ((num_coupons as u64) << 3) >= 475 * (1u64 << lg_k) {
+            return Err(Error::new(
+                ErrorKind::InvalidData,
+                format!("num_coupons {num_coupons} is too large for lg_k {lg_k}"),
+            ));
+        }
+
+        let uncompressed = compressed.uncompress(lg_k, num_coupons)?;
+        let sketch = CpcSketch {
             lg_k,
             seed,
             seed_hash,
@@ -644,7 +652,56 @@ impl CpcSketch {
             merge_flag: !has_hip,
             kxp,
             hip_est_accum,
-        })
+        };
+
+        // the streams must describe exactly num_coupons coupons, and every column below the first
+        // interesting column must be full (updates in those columns are skipped)
+        if !sketch.image_is_consistent() {
+            return Err(Error::new(
+                ErrorKind::InvalidData,
+                format!(
+                    "the image does not describe num_coupons = {num_coupons} coupons with \
+                     first_interesting_column = {first_interesting_column}"
+                ),
+            ));
+        }
+        Ok(sketch)
+    }
+
+    /// Whether window and table hold exactly `num_coupons` coupons and agree with
+    /// `first_interesting_column` (checked without building the bit matrix).
+    fn image_is_consistent(&self) -> bool {
+        let offset = self.window_offset as u32;
+        let fic = self.first_interesting_column as u32;
+        if fic > offset {
+            return false;
+        }
+        let windowed = !self.sliding_window.is_empty();
+        // the early zone counts as all ones, minus the surprising zeros found in the table
+        let mut count = (offset as u64) << self.lg_k;
+        for byte in &self.sliding_window {
+            count += byte.count_ones() as u64;
+        }
+        if let Some(table) = &self.surprising_value_table {
+            for &row_col in table.slots() {
+                if row_col == u32::MAX {
+                    continue;
+                }
+                let col = row_col & 63;
+                if col < offset {
+                    // a zero below the first interesting column contradicts it
+                    if col < fic || count == 0 {
+                        return false;
+                    }
+                    count -= 1;
+                } else if windowed && col < offset + 8 {
+                    return false;
+                } else {
+                    count += 1;
+                }
+            }
+        }
+        count == self.num_coupons as u64
     }
 
     fn write_hip(&self, bytes: &mut SketchBytes) {
